@@ -2,16 +2,16 @@
 every event kind exercised once per version class and mechanism; plus the single-bit-flip sweep."""
 
 
-def base_cfg(maxv, mech):
+def base_cfg(maxv, mech, auth=0):
     """mech: 'sid' (cache only), 'ticket' (tickets only), 'both' (cache + tickets)"""
     return {'maxv': maxv, 'keys': [1] if mech in ('ticket', 'both') else [], 'life': 100, 'count': 1,
             'usecache': mech in ('sid', 'both'), 'maxage': 50, 'cap': 10000,
-            'ems': True, 'etm': True, 'reqcert': True, 'menu': 0}
+            'ems': True, 'etm': True, 'reqcert': True, 'menu': 0, 'auth': auth}
 
 
-def conn(maxv, offer=None, srv=0, menu=0, ems=True, etm=True, sni=1, ccert=1):
+def conn(maxv, offer=None, srv=0, menu=0, ems=True, etm=True, sni=1, ccert=1, kind=0, srp=1):
     return {'e': 'conn', 'srv': srv, 'maxv': maxv, 'menu': menu, 'ems': ems, 'etm': etm, 'sni': sni,
-            'ccert': ccert, 'offer': offer}
+            'ccert': ccert if kind == 0 else 0, 'offer': offer, 'kind': kind, 'srp': srp if kind == 1 else 0}
 
 
 def close(c, kind=0):
@@ -111,22 +111,27 @@ def scenarios(thorough=False):
     out = []
     for v in (1, 2, 3, 4):
         for mech in (['ticket'] if v == 4 else ['sid', 'ticket', 'both']):
-            for first_variant in (['cbc', 'default', 'noems'] if v < 4 else ['default', 'sha256']):
+            for first_variant in (['cbc', 'default', 'noems', 'srp', 'anon'] if v < 4 else ['default', 'sha256']):
                 if not thorough:
-                    if v < 3 and (mech == 'both' or first_variant != 'cbc'):
+                    if first_variant in ('srp', 'anon') and v < 3 and mech != 'ticket':
+                        continue
+                    if v < 3 and (mech == 'both' or first_variant not in ('cbc', 'srp', 'anon')):
                         continue
                     if v == 3 and ((mech == 'both' and first_variant != 'default') or
                                    (mech == 'sid' and first_variant == 'noems')):
                         continue
-                c = base_cfg(v, mech)
+                auth = {'srp': 1, 'anon': 2}.get(first_variant, 0)
+                c = base_cfg(v, mech, auth)
                 kw = {}
-                if first_variant == 'cbc':
+                if auth:
+                    kw = {'kind': auth}
+                elif first_variant == 'cbc':
                     kw = {'menu': 6}
                 elif first_variant == 'noems':
                     kw = {'ems': False, 'etm': False, 'ccert': 0}
                 elif first_variant == 'sha256':
                     kw = {'menu': 5}
-                other = dict(base_cfg(v, mech), keys=[101] if mech != 'sid' else [])
+                other = dict(base_cfg(v, mech, auth), keys=[101] if mech != 'sid' else [])
                 for name, mid, over in middles(c, v, mech):
                     if not thorough and v < 3 and name not in QUICK_OLD:
                         continue
@@ -136,11 +141,15 @@ def scenarios(thorough=False):
                         evs = [tick(3), conn(v, **kw), close(0), tick(c['life'] * 4 - 2), conn(v, offer=0, **kw)]
                         out.append((tag, [c, other], evs))
                         continue
+                    # connections inside the middle part are made by the same client flavour
+                    kwc = dict(conn(v, **kw))
+                    kwc = {k: kwc[k] for k in ('menu', 'ems', 'etm', 'ccert', 'kind', 'srp')}
                     kw2 = dict(kw)
                     kw2.update(over)
                     mv = kw2.pop('maxv', v)
                     srv = kw2.pop('srv', 0)
-                    evs = [conn(v, **kw)] + [dict(e) for e in mid] + [conn(mv, offer=0, srv=srv, **kw2)]
+                    evs = ([conn(v, **kw)] + [dict(e, **kwc) if e['e'] == 'conn' else dict(e) for e in mid]
+                           + [conn(mv, offer=0, srv=srv, **kw2)])
                     out.append((tag, [c, other], evs))
     # single-bit flips of one TLS 1.2 ticket and one TLS 1.3 ticket (thorough: every bit)
     for v in (3, 4):
